@@ -3,6 +3,8 @@ try:
 except ImportError as e:
     raise ImportError("Please install with geff[pandas] to use this module.") from e
 
+import errno
+import os
 import warnings
 from pathlib import Path
 
@@ -108,6 +110,14 @@ def geff_to_csv(store: StoreLike, outpath: Path | str, overwrite: bool = False) 
     # Add node/edge.csv to path
     node_path = f"{outpath}-nodes.csv"
     edge_path = f"{outpath}-edges.csv"
+
+    # Refuse before anything is written: a refused export must not leave a new
+    # nodes table next to the edges table of a previous export (or vice versa)
+    if not overwrite:
+        for path in (node_path, edge_path):
+            if Path(path).exists():
+                # same error as opening the file with mode "x"
+                raise FileExistsError(errno.EEXIST, os.strerror(errno.EEXIST), path)
 
     # Convert and write to disk
     node_df, edge_df = geff_to_dataframes(store)
